@@ -6,7 +6,8 @@ Specification : specs/Call.tla section 6 (the ideal: Want = what the C caller mu
                 convert_from_object_fficallback operate on it, with the ffi_arg widening of small
                 integer results).
 Design level  : MC_CallCb — every result type class x {callback, extern "Python"} x body
-                {raises, returns boundary / out-of-range / wrong-type value} x error= x onerror
+                {raises, returns boundary / out-of-range / wrong-type value, returns a short list
+                or dict initializer for a struct result} x error= x onerror
                 {absent, None, value, unconvertible value, raises}: NoEscape, DeliveredOK,
                 WidenOK; four broken variants must be rejected.
 Binding       : every configuration TLC enumerated is executed on real ffi.callback objects and
@@ -34,7 +35,7 @@ INVARIANT WidenOK
 CHECK_DEADLOCK FALSE
 """
 VARIANTS = (("widen_low_only", "WidenOK"), ("widen_zero", "WidenOK"), ("no_errcopy", "DeliveredOK"),
-            ("escape", "NoEscape"))
+            ("escape", "NoEscape"), ("struct_nozero", "DeliveredOK"))
 CLAUSE = {"escape": "a Python exception escaped into the C caller",
           "called": "the Python function was not invoked exactly once",
           "args": "the Python function did not receive exactly the argument values the C caller passed",
@@ -43,7 +44,7 @@ RT_OF = {"p_i32": "p_i32"}
 
 
 def design_level(ctx):
-    with ThreadPoolExecutor(max_workers=5) as ex:
+    with ThreadPoolExecutor(max_workers=6) as ex:
         fm = ex.submit(core.tlc, "MC_CallCb", cfg_text=CFG % "faithful", workers=4, coverage=not ctx.quick, timeout=1200)
         fv = [ex.submit(core.tlc, "MC_CallCb", cfg_text=(CFG % v).replace("MCCfgs", "SmallCfgs"), workers=1, timeout=600,
                         env=R.LIGHT_JVM) for v, _ in VARIANTS]
